@@ -344,7 +344,7 @@ impl Wire for char { open spec fn bytes(&self) -> Seq<u8> { leb(*self as u32 as 
 //@ header+ + Wire
 //@ extra
     /// self-delimiting: part of the contract every implementor has to prove
-    proof fn prefix_free(a: Self, b: Self, ta: Seq<u8>, tb: Seq<u8>)
+    proof fn prefix_free(a: &Self, b: &Self, ta: Seq<u8>, tb: Seq<u8>)
         requires a.bytes() + ta == b.bytes() + tb
         ensures a.bytes() == b.bytes(), ta == tb;
 //@ member decode
@@ -359,8 +359,8 @@ impl Wire for char { open spec fn bytes(&self) -> Seq<u8> { leb(*self as u32 as 
 //@ end
 //@ impl crates/serialize/src/decode.rs :: impl Decode for u8
 //@ extra
-    proof fn prefix_free(a: Self, b: Self, ta: Seq<u8>, tb: Seq<u8>) {
-        lemma_one_byte_split(a, b, ta, tb);
+    proof fn prefix_free(a: &Self, b: &Self, ta: Seq<u8>, tb: Seq<u8>) {
+        lemma_one_byte_split(*a, *b, ta, tb);
     }
 //@ member decode
 //@ end
@@ -369,8 +369,8 @@ impl Wire for char { open spec fn bytes(&self) -> Seq<u8> { leb(*self as u32 as 
 //@ end
 //@ impl crates/serialize/src/decode.rs :: impl Decode for u16
 //@ extra
-    proof fn prefix_free(a: Self, b: Self, ta: Seq<u8>, tb: Seq<u8>) {
-        lemma_leb_prefix_free(a as nat, b as nat, ta, tb);
+    proof fn prefix_free(a: &Self, b: &Self, ta: Seq<u8>, tb: Seq<u8>) {
+        lemma_leb_prefix_free(*a as nat, *b as nat, ta, tb);
     }
 //@ member decode
 //@ end
@@ -379,8 +379,8 @@ impl Wire for char { open spec fn bytes(&self) -> Seq<u8> { leb(*self as u32 as 
 //@ end
 //@ impl crates/serialize/src/decode.rs :: impl Decode for u32
 //@ extra
-    proof fn prefix_free(a: Self, b: Self, ta: Seq<u8>, tb: Seq<u8>) {
-        lemma_leb_prefix_free(a as nat, b as nat, ta, tb);
+    proof fn prefix_free(a: &Self, b: &Self, ta: Seq<u8>, tb: Seq<u8>) {
+        lemma_leb_prefix_free(*a as nat, *b as nat, ta, tb);
     }
 //@ member decode
 //@ end
@@ -389,8 +389,8 @@ impl Wire for char { open spec fn bytes(&self) -> Seq<u8> { leb(*self as u32 as 
 //@ end
 //@ impl crates/serialize/src/decode.rs :: impl Decode for u64
 //@ extra
-    proof fn prefix_free(a: Self, b: Self, ta: Seq<u8>, tb: Seq<u8>) {
-        lemma_leb_prefix_free(a as nat, b as nat, ta, tb);
+    proof fn prefix_free(a: &Self, b: &Self, ta: Seq<u8>, tb: Seq<u8>) {
+        lemma_leb_prefix_free(*a as nat, *b as nat, ta, tb);
     }
 //@ member decode
 //@ end
@@ -399,8 +399,8 @@ impl Wire for char { open spec fn bytes(&self) -> Seq<u8> { leb(*self as u32 as 
 //@ end
 //@ impl crates/serialize/src/decode.rs :: impl Decode for u128
 //@ extra
-    proof fn prefix_free(a: Self, b: Self, ta: Seq<u8>, tb: Seq<u8>) {
-        lemma_leb_prefix_free(a as nat, b as nat, ta, tb);
+    proof fn prefix_free(a: &Self, b: &Self, ta: Seq<u8>, tb: Seq<u8>) {
+        lemma_leb_prefix_free(*a as nat, *b as nat, ta, tb);
     }
 //@ member decode
 //@ end
@@ -409,8 +409,8 @@ impl Wire for char { open spec fn bytes(&self) -> Seq<u8> { leb(*self as u32 as 
 //@ end
 //@ impl crates/serialize/src/decode.rs :: impl Decode for usize
 //@ extra
-    proof fn prefix_free(a: Self, b: Self, ta: Seq<u8>, tb: Seq<u8>) {
-        lemma_leb_prefix_free(a as nat, b as nat, ta, tb);
+    proof fn prefix_free(a: &Self, b: &Self, ta: Seq<u8>, tb: Seq<u8>) {
+        lemma_leb_prefix_free(*a as nat, *b as nat, ta, tb);
     }
 //@ member decode
 //@ end
@@ -419,8 +419,8 @@ impl Wire for char { open spec fn bytes(&self) -> Seq<u8> { leb(*self as u32 as 
 //@ end
 //@ impl crates/serialize/src/decode.rs :: impl Decode for i8
 //@ extra
-    proof fn prefix_free(a: Self, b: Self, ta: Seq<u8>, tb: Seq<u8>) {
-        lemma_one_byte_split(a as u8, b as u8, ta, tb);
+    proof fn prefix_free(a: &Self, b: &Self, ta: Seq<u8>, tb: Seq<u8>) {
+        lemma_one_byte_split(*a as u8, *b as u8, ta, tb);
     }
 //@ member decode
 //@ end
@@ -429,9 +429,9 @@ impl Wire for char { open spec fn bytes(&self) -> Seq<u8> { leb(*self as u32 as 
 //@ end
 //@ impl crates/serialize/src/decode.rs :: impl Decode for i16
 //@ extra
-    proof fn prefix_free(a: Self, b: Self, ta: Seq<u8>, tb: Seq<u8>) {
-        lemma_leb_prefix_free(zz(a as int), zz(b as int), ta, tb);
-        lemma_zz_injective(a as int, b as int);
+    proof fn prefix_free(a: &Self, b: &Self, ta: Seq<u8>, tb: Seq<u8>) {
+        lemma_leb_prefix_free(zz(*a as int), zz(*b as int), ta, tb);
+        lemma_zz_injective(*a as int, *b as int);
     }
 //@ member decode
 //@ end
@@ -440,9 +440,9 @@ impl Wire for char { open spec fn bytes(&self) -> Seq<u8> { leb(*self as u32 as 
 //@ end
 //@ impl crates/serialize/src/decode.rs :: impl Decode for i32
 //@ extra
-    proof fn prefix_free(a: Self, b: Self, ta: Seq<u8>, tb: Seq<u8>) {
-        lemma_leb_prefix_free(zz(a as int), zz(b as int), ta, tb);
-        lemma_zz_injective(a as int, b as int);
+    proof fn prefix_free(a: &Self, b: &Self, ta: Seq<u8>, tb: Seq<u8>) {
+        lemma_leb_prefix_free(zz(*a as int), zz(*b as int), ta, tb);
+        lemma_zz_injective(*a as int, *b as int);
     }
 //@ member decode
 //@ end
@@ -451,9 +451,9 @@ impl Wire for char { open spec fn bytes(&self) -> Seq<u8> { leb(*self as u32 as 
 //@ end
 //@ impl crates/serialize/src/decode.rs :: impl Decode for i64
 //@ extra
-    proof fn prefix_free(a: Self, b: Self, ta: Seq<u8>, tb: Seq<u8>) {
-        lemma_leb_prefix_free(zz(a as int), zz(b as int), ta, tb);
-        lemma_zz_injective(a as int, b as int);
+    proof fn prefix_free(a: &Self, b: &Self, ta: Seq<u8>, tb: Seq<u8>) {
+        lemma_leb_prefix_free(zz(*a as int), zz(*b as int), ta, tb);
+        lemma_zz_injective(*a as int, *b as int);
     }
 //@ member decode
 //@ end
@@ -462,9 +462,9 @@ impl Wire for char { open spec fn bytes(&self) -> Seq<u8> { leb(*self as u32 as 
 //@ end
 //@ impl crates/serialize/src/decode.rs :: impl Decode for i128
 //@ extra
-    proof fn prefix_free(a: Self, b: Self, ta: Seq<u8>, tb: Seq<u8>) {
-        lemma_leb_prefix_free(zz(a as int), zz(b as int), ta, tb);
-        lemma_zz_injective(a as int, b as int);
+    proof fn prefix_free(a: &Self, b: &Self, ta: Seq<u8>, tb: Seq<u8>) {
+        lemma_leb_prefix_free(zz(*a as int), zz(*b as int), ta, tb);
+        lemma_zz_injective(*a as int, *b as int);
     }
 //@ member decode
 //@ end
@@ -473,9 +473,9 @@ impl Wire for char { open spec fn bytes(&self) -> Seq<u8> { leb(*self as u32 as 
 //@ end
 //@ impl crates/serialize/src/decode.rs :: impl Decode for isize
 //@ extra
-    proof fn prefix_free(a: Self, b: Self, ta: Seq<u8>, tb: Seq<u8>) {
-        lemma_leb_prefix_free(zz(a as int), zz(b as int), ta, tb);
-        lemma_zz_injective(a as int, b as int);
+    proof fn prefix_free(a: &Self, b: &Self, ta: Seq<u8>, tb: Seq<u8>) {
+        lemma_leb_prefix_free(zz(*a as int), zz(*b as int), ta, tb);
+        lemma_zz_injective(*a as int, *b as int);
     }
 //@ member decode
 //@ end
@@ -484,8 +484,8 @@ impl Wire for char { open spec fn bytes(&self) -> Seq<u8> { leb(*self as u32 as 
 //@ end
 //@ impl crates/serialize/src/decode.rs :: impl Decode for bool
 //@ extra
-    proof fn prefix_free(a: Self, b: Self, ta: Seq<u8>, tb: Seq<u8>) {
-        lemma_one_byte_split(if a { 1u8 } else { 0u8 }, if b { 1u8 } else { 0u8 }, ta, tb);
+    proof fn prefix_free(a: &Self, b: &Self, ta: Seq<u8>, tb: Seq<u8>) {
+        lemma_one_byte_split(if *a { 1u8 } else { 0u8 }, if *b { 1u8 } else { 0u8 }, ta, tb);
     }
 //@ member decode
 //@ end
@@ -494,10 +494,662 @@ impl Wire for char { open spec fn bytes(&self) -> Seq<u8> { leb(*self as u32 as 
 //@ end
 //@ impl crates/serialize/src/decode.rs :: impl Decode for char
 //@ extra
-    proof fn prefix_free(a: Self, b: Self, ta: Seq<u8>, tb: Seq<u8>) {
-        lemma_leb_prefix_free(a as u32 as nat, b as u32 as nat, ta, tb);
+    proof fn prefix_free(a: &Self, b: &Self, ta: Seq<u8>, tb: Seq<u8>) {
+        lemma_leb_prefix_free(*a as u32 as nat, *b as u32 as nat, ta, tb);
     }
 //@ member decode
+//@ end
+
+
+// ---------------------------------------------------------------- references and smart pointers (transparent)
+impl<T: Wire + ?Sized> Wire for &T { open spec fn bytes(&self) -> Seq<u8> { (**self).bytes() } }
+impl<T: Wire + ?Sized> Wire for &mut T { open spec fn bytes(&self) -> Seq<u8> { (**self).bytes() } }
+impl<T: Wire + ?Sized> Wire for Box<T> { open spec fn bytes(&self) -> Seq<u8> { (**self).bytes() } }
+impl<T: Wire + ?Sized> Wire for Rc<T> { open spec fn bytes(&self) -> Seq<u8> { (**self).bytes() } }
+impl<T: Wire + ?Sized> Wire for Arc<T> { open spec fn bytes(&self) -> Seq<u8> { (**self).bytes() } }
+
+//@ impl crates/serialize/src/encode.rs :: impl<T: Encode + ?Sized> Encode for &T
+//@ member encode
+//@ end
+//@ impl crates/serialize/src/encode.rs :: impl<T: Encode + ?Sized> Encode for &mut T
+//@ member encode
+//@ end
+//@ impl crates/serialize/src/encode.rs :: impl<T: Encode + ?Sized> Encode for Box<T>
+//@ member encode
+//@ end
+//@ impl crates/serialize/src/encode.rs :: impl<T: Encode + ?Sized> Encode for Rc<T>
+//@ member encode
+//@ end
+//@ impl crates/serialize/src/encode.rs :: impl<T: Encode + ?Sized> Encode for Arc<T>
+//@ member encode
+//@ end
+//@ impl crates/serialize/src/decode.rs :: impl<T: Decode> Decode for Box<T>
+//@ extra
+    proof fn prefix_free(a: &Self, b: &Self, ta: Seq<u8>, tb: Seq<u8>) {
+        T::prefix_free(&**a, &**b, ta, tb);
+    }
+//@ member decode
+//@ end
+//@ impl crates/serialize/src/decode.rs :: impl<T: Decode> Decode for Rc<T>
+//@ extra
+    proof fn prefix_free(a: &Self, b: &Self, ta: Seq<u8>, tb: Seq<u8>) {
+        T::prefix_free(&**a, &**b, ta, tb);
+    }
+//@ member decode
+//@ end
+//@ impl crates/serialize/src/decode.rs :: impl<T: Decode> Decode for Arc<T>
+//@ extra
+    proof fn prefix_free(a: &Self, b: &Self, ta: Seq<u8>, tb: Seq<u8>) {
+        T::prefix_free(&**a, &**b, ta, tb);
+    }
+//@ member decode
+//@ end
+
+
+// ---------------------------------------------------------------- Option / Result
+impl<T: Wire> Wire for Option<T> {
+    open spec fn bytes(&self) -> Seq<u8> {
+        match self { Some(v) => seq![1u8] + v.bytes(), None => seq![0u8] }
+    }
+}
+impl<T: Wire, U: Wire> Wire for Result<T, U> {
+    open spec fn bytes(&self) -> Seq<u8> {
+        match self { Ok(v) => seq![1u8] + v.bytes(), Err(e) => seq![0u8] + e.bytes() }
+    }
+}
+
+/// a one-byte tag followed by a payload: first byte / remainder of `tag + payload + tail`
+pub broadcast proof fn lemma_tag_split(tag: u8, payload: Seq<u8>, tail: Seq<u8>)
+    ensures
+        #[trigger] ((seq![tag] + payload) + tail) == true.bytes() + (payload + tail) <==> tag == 1u8,
+        ((seq![tag] + payload) + tail) == false.bytes() + (payload + tail) <==> tag == 0u8,
+        ((seq![tag] + payload) + tail) == tag.bytes() + (payload + tail),
+{
+    let s = (seq![tag] + payload) + tail;
+    assert(s =~= seq![tag] + (payload + tail));
+    assert(s[0] == tag);
+    assert((true.bytes() + (payload + tail))[0] == 1u8);
+    assert((false.bytes() + (payload + tail))[0] == 0u8);
+}
+
+pub broadcast proof fn lemma_tag_only(tag: u8, tail: Seq<u8>)
+    ensures
+        #[trigger] (seq![tag] + tail) == true.bytes() + tail <==> tag == 1u8,
+        (seq![tag] + tail) == false.bytes() + tail <==> tag == 0u8,
+        (seq![tag] + tail) == tag.bytes() + tail,
+{
+    let s = seq![tag] + tail;
+    assert(s[0] == tag);
+    assert((true.bytes() + tail)[0] == 1u8);
+    assert((false.bytes() + tail)[0] == 0u8);
+}
+
+//@ impl crates/serialize/src/encode.rs :: impl<T: Encode> Encode for Option<T>
+//@ member encode
+//@ end
+//@ impl crates/serialize/src/decode.rs :: impl<T: Decode> Decode for Option<T>
+//@ extra
+    proof fn prefix_free(a: &Self, b: &Self, ta: Seq<u8>, tb: Seq<u8>) {
+        broadcast use lemma_cat_assoc;
+        match (a, b) {
+            (Some(x), Some(y)) => {
+                lemma_one_byte_split(1u8, 1u8, x.bytes() + ta, y.bytes() + tb);
+                T::prefix_free(x, y, ta, tb);
+            }
+            (None, None) => { lemma_one_byte_split(0u8, 0u8, ta, tb); }
+            (Some(x), None) => { lemma_one_byte_split(1u8, 0u8, x.bytes() + ta, tb); }
+            (None, Some(y)) => { lemma_one_byte_split(0u8, 1u8, ta, y.bytes() + tb); }
+        }
+    }
+//@ member decode
+//@ head
+        broadcast use lemma_tag_split, lemma_tag_only;
+//@ end
+
+//@ impl crates/serialize/src/encode.rs :: impl<T: Encode, U: Encode> Encode for Result<T, U>
+//@ member encode
+//@ end
+//@ impl crates/serialize/src/decode.rs :: impl<T: Decode, E: Decode> Decode for Result<T, E>
+//@ extra
+    proof fn prefix_free(a: &Self, b: &Self, ta: Seq<u8>, tb: Seq<u8>) {
+        broadcast use lemma_cat_assoc;
+        match (a, b) {
+            (Ok(x), Ok(y)) => {
+                lemma_one_byte_split(1u8, 1u8, x.bytes() + ta, y.bytes() + tb);
+                T::prefix_free(x, y, ta, tb);
+            }
+            (Err(x), Err(y)) => {
+                lemma_one_byte_split(0u8, 0u8, x.bytes() + ta, y.bytes() + tb);
+                E::prefix_free(x, y, ta, tb);
+            }
+            (Ok(x), Err(y)) => { lemma_one_byte_split(1u8, 0u8, x.bytes() + ta, y.bytes() + tb); }
+            (Err(x), Ok(y)) => { lemma_one_byte_split(0u8, 1u8, x.bytes() + ta, y.bytes() + tb); }
+        }
+    }
+//@ member decode
+//@ head
+        broadcast use lemma_tag_split, lemma_tag_only;
+//@ end
+
+
+// ---------------------------------------------------------------- unit and tuples (fields in declaration order, no framing)
+impl Wire for () { open spec fn bytes(&self) -> Seq<u8> { Seq::<u8>::empty() } }
+//@ impl crates/serialize/src/encode.rs :: impl Encode for ()
+//@ member encode
+//@ end
+//@ impl crates/serialize/src/decode.rs :: impl Decode for ()
+//@ extra
+    proof fn prefix_free(a: &Self, b: &Self, ta: Seq<u8>, tb: Seq<u8>) {
+        broadcast use lemma_cat_empty;
+    }
+//@ member decode
+//@ head
+        broadcast use lemma_cat_empty;
+//@ end
+
+impl<T0: Wire> Wire for (T0, ) { open spec fn bytes(&self) -> Seq<u8> { self.0.bytes() } }
+//@ macro crates/serialize/src/encode.rs :: impl_encode_tuple!(A)
+//@ member encode
+//@ head
+        broadcast use lemma_cat_assoc;
+//@ end
+//@ macro crates/serialize/src/decode.rs :: impl_decode_tuple!(A)
+//@ extra
+    proof fn prefix_free(a: &Self, b: &Self, ta: Seq<u8>, tb: Seq<u8>) {
+        broadcast use lemma_cat_assoc;
+        assert(a.bytes() + ta =~= a.0.bytes() + (ta));
+        assert(b.bytes() + tb =~= b.0.bytes() + (tb));
+        A::prefix_free(&a.0, &b.0, ta, tb);
+    }
+//@ member decode
+//@ head
+        broadcast use lemma_cat_assoc;
+//@ end
+impl<T0: Wire, T1: Wire> Wire for (T0, T1, ) { open spec fn bytes(&self) -> Seq<u8> { self.0.bytes() + self.1.bytes() } }
+//@ macro crates/serialize/src/encode.rs :: impl_encode_tuple!(A, B)
+//@ member encode
+//@ head
+        broadcast use lemma_cat_assoc;
+//@ end
+//@ macro crates/serialize/src/decode.rs :: impl_decode_tuple!(A, B)
+//@ extra
+    proof fn prefix_free(a: &Self, b: &Self, ta: Seq<u8>, tb: Seq<u8>) {
+        broadcast use lemma_cat_assoc;
+        assert(a.bytes() + ta =~= a.0.bytes() + (a.1.bytes() + (ta)));
+        assert(b.bytes() + tb =~= b.0.bytes() + (b.1.bytes() + (tb)));
+        A::prefix_free(&a.0, &b.0, a.1.bytes() + (ta), b.1.bytes() + (tb));
+        B::prefix_free(&a.1, &b.1, ta, tb);
+    }
+//@ member decode
+//@ head
+        broadcast use lemma_cat_assoc;
+//@ end
+impl<T0: Wire, T1: Wire, T2: Wire> Wire for (T0, T1, T2, ) { open spec fn bytes(&self) -> Seq<u8> { self.0.bytes() + self.1.bytes() + self.2.bytes() } }
+//@ macro crates/serialize/src/encode.rs :: impl_encode_tuple!(A, B, C)
+//@ member encode
+//@ head
+        broadcast use lemma_cat_assoc;
+//@ end
+//@ macro crates/serialize/src/decode.rs :: impl_decode_tuple!(A, B, C)
+//@ extra
+    proof fn prefix_free(a: &Self, b: &Self, ta: Seq<u8>, tb: Seq<u8>) {
+        broadcast use lemma_cat_assoc;
+        assert(a.bytes() + ta =~= a.0.bytes() + (a.1.bytes() + (a.2.bytes() + (ta))));
+        assert(b.bytes() + tb =~= b.0.bytes() + (b.1.bytes() + (b.2.bytes() + (tb))));
+        A::prefix_free(&a.0, &b.0, a.1.bytes() + (a.2.bytes() + (ta)), b.1.bytes() + (b.2.bytes() + (tb)));
+        B::prefix_free(&a.1, &b.1, a.2.bytes() + (ta), b.2.bytes() + (tb));
+        C::prefix_free(&a.2, &b.2, ta, tb);
+    }
+//@ member decode
+//@ head
+        broadcast use lemma_cat_assoc;
+//@ end
+impl<T0: Wire, T1: Wire, T2: Wire, T3: Wire> Wire for (T0, T1, T2, T3, ) { open spec fn bytes(&self) -> Seq<u8> { self.0.bytes() + self.1.bytes() + self.2.bytes() + self.3.bytes() } }
+//@ macro crates/serialize/src/encode.rs :: impl_encode_tuple!(A, B, C, D)
+//@ member encode
+//@ head
+        broadcast use lemma_cat_assoc;
+//@ end
+//@ macro crates/serialize/src/decode.rs :: impl_decode_tuple!(A, B, C, D_)
+//@ extra
+    proof fn prefix_free(a: &Self, b: &Self, ta: Seq<u8>, tb: Seq<u8>) {
+        broadcast use lemma_cat_assoc;
+        assert(a.bytes() + ta =~= a.0.bytes() + (a.1.bytes() + (a.2.bytes() + (a.3.bytes() + (ta)))));
+        assert(b.bytes() + tb =~= b.0.bytes() + (b.1.bytes() + (b.2.bytes() + (b.3.bytes() + (tb)))));
+        A::prefix_free(&a.0, &b.0, a.1.bytes() + (a.2.bytes() + (a.3.bytes() + (ta))), b.1.bytes() + (b.2.bytes() + (b.3.bytes() + (tb))));
+        B::prefix_free(&a.1, &b.1, a.2.bytes() + (a.3.bytes() + (ta)), b.2.bytes() + (b.3.bytes() + (tb)));
+        C::prefix_free(&a.2, &b.2, a.3.bytes() + (ta), b.3.bytes() + (tb));
+        D_::prefix_free(&a.3, &b.3, ta, tb);
+    }
+//@ member decode
+//@ head
+        broadcast use lemma_cat_assoc;
+//@ end
+impl<T0: Wire, T1: Wire, T2: Wire, T3: Wire, T4: Wire> Wire for (T0, T1, T2, T3, T4, ) { open spec fn bytes(&self) -> Seq<u8> { self.0.bytes() + self.1.bytes() + self.2.bytes() + self.3.bytes() + self.4.bytes() } }
+//@ macro crates/serialize/src/encode.rs :: impl_encode_tuple!(A, B, C, D, E_)
+//@ member encode
+//@ head
+        broadcast use lemma_cat_assoc;
+//@ end
+//@ macro crates/serialize/src/decode.rs :: impl_decode_tuple!(A, B, C, D_, E)
+//@ extra
+    proof fn prefix_free(a: &Self, b: &Self, ta: Seq<u8>, tb: Seq<u8>) {
+        broadcast use lemma_cat_assoc;
+        assert(a.bytes() + ta =~= a.0.bytes() + (a.1.bytes() + (a.2.bytes() + (a.3.bytes() + (a.4.bytes() + (ta))))));
+        assert(b.bytes() + tb =~= b.0.bytes() + (b.1.bytes() + (b.2.bytes() + (b.3.bytes() + (b.4.bytes() + (tb))))));
+        A::prefix_free(&a.0, &b.0, a.1.bytes() + (a.2.bytes() + (a.3.bytes() + (a.4.bytes() + (ta)))), b.1.bytes() + (b.2.bytes() + (b.3.bytes() + (b.4.bytes() + (tb)))));
+        B::prefix_free(&a.1, &b.1, a.2.bytes() + (a.3.bytes() + (a.4.bytes() + (ta))), b.2.bytes() + (b.3.bytes() + (b.4.bytes() + (tb))));
+        C::prefix_free(&a.2, &b.2, a.3.bytes() + (a.4.bytes() + (ta)), b.3.bytes() + (b.4.bytes() + (tb)));
+        D_::prefix_free(&a.3, &b.3, a.4.bytes() + (ta), b.4.bytes() + (tb));
+        E::prefix_free(&a.4, &b.4, ta, tb);
+    }
+//@ member decode
+//@ head
+        broadcast use lemma_cat_assoc;
+//@ end
+impl<T0: Wire, T1: Wire, T2: Wire, T3: Wire, T4: Wire, T5: Wire> Wire for (T0, T1, T2, T3, T4, T5, ) { open spec fn bytes(&self) -> Seq<u8> { self.0.bytes() + self.1.bytes() + self.2.bytes() + self.3.bytes() + self.4.bytes() + self.5.bytes() } }
+//@ macro crates/serialize/src/encode.rs :: impl_encode_tuple!(A, B, C, D, E_, F)
+//@ member encode
+//@ head
+        broadcast use lemma_cat_assoc;
+//@ end
+//@ macro crates/serialize/src/decode.rs :: impl_decode_tuple!(A, B, C, D_, E, F)
+//@ extra
+    proof fn prefix_free(a: &Self, b: &Self, ta: Seq<u8>, tb: Seq<u8>) {
+        broadcast use lemma_cat_assoc;
+        assert(a.bytes() + ta =~= a.0.bytes() + (a.1.bytes() + (a.2.bytes() + (a.3.bytes() + (a.4.bytes() + (a.5.bytes() + (ta)))))));
+        assert(b.bytes() + tb =~= b.0.bytes() + (b.1.bytes() + (b.2.bytes() + (b.3.bytes() + (b.4.bytes() + (b.5.bytes() + (tb)))))));
+        A::prefix_free(&a.0, &b.0, a.1.bytes() + (a.2.bytes() + (a.3.bytes() + (a.4.bytes() + (a.5.bytes() + (ta))))), b.1.bytes() + (b.2.bytes() + (b.3.bytes() + (b.4.bytes() + (b.5.bytes() + (tb))))));
+        B::prefix_free(&a.1, &b.1, a.2.bytes() + (a.3.bytes() + (a.4.bytes() + (a.5.bytes() + (ta)))), b.2.bytes() + (b.3.bytes() + (b.4.bytes() + (b.5.bytes() + (tb)))));
+        C::prefix_free(&a.2, &b.2, a.3.bytes() + (a.4.bytes() + (a.5.bytes() + (ta))), b.3.bytes() + (b.4.bytes() + (b.5.bytes() + (tb))));
+        D_::prefix_free(&a.3, &b.3, a.4.bytes() + (a.5.bytes() + (ta)), b.4.bytes() + (b.5.bytes() + (tb)));
+        E::prefix_free(&a.4, &b.4, a.5.bytes() + (ta), b.5.bytes() + (tb));
+        F::prefix_free(&a.5, &b.5, ta, tb);
+    }
+//@ member decode
+//@ head
+        broadcast use lemma_cat_assoc;
+//@ end
+impl<T0: Wire, T1: Wire, T2: Wire, T3: Wire, T4: Wire, T5: Wire, T6: Wire> Wire for (T0, T1, T2, T3, T4, T5, T6, ) { open spec fn bytes(&self) -> Seq<u8> { self.0.bytes() + self.1.bytes() + self.2.bytes() + self.3.bytes() + self.4.bytes() + self.5.bytes() + self.6.bytes() } }
+//@ macro crates/serialize/src/encode.rs :: impl_encode_tuple!(A, B, C, D, E_, F, G)
+//@ member encode
+//@ head
+        broadcast use lemma_cat_assoc;
+//@ end
+//@ macro crates/serialize/src/decode.rs :: impl_decode_tuple!(A, B, C, D_, E, F, G)
+//@ extra
+    proof fn prefix_free(a: &Self, b: &Self, ta: Seq<u8>, tb: Seq<u8>) {
+        broadcast use lemma_cat_assoc;
+        assert(a.bytes() + ta =~= a.0.bytes() + (a.1.bytes() + (a.2.bytes() + (a.3.bytes() + (a.4.bytes() + (a.5.bytes() + (a.6.bytes() + (ta))))))));
+        assert(b.bytes() + tb =~= b.0.bytes() + (b.1.bytes() + (b.2.bytes() + (b.3.bytes() + (b.4.bytes() + (b.5.bytes() + (b.6.bytes() + (tb))))))));
+        A::prefix_free(&a.0, &b.0, a.1.bytes() + (a.2.bytes() + (a.3.bytes() + (a.4.bytes() + (a.5.bytes() + (a.6.bytes() + (ta)))))), b.1.bytes() + (b.2.bytes() + (b.3.bytes() + (b.4.bytes() + (b.5.bytes() + (b.6.bytes() + (tb)))))));
+        B::prefix_free(&a.1, &b.1, a.2.bytes() + (a.3.bytes() + (a.4.bytes() + (a.5.bytes() + (a.6.bytes() + (ta))))), b.2.bytes() + (b.3.bytes() + (b.4.bytes() + (b.5.bytes() + (b.6.bytes() + (tb))))));
+        C::prefix_free(&a.2, &b.2, a.3.bytes() + (a.4.bytes() + (a.5.bytes() + (a.6.bytes() + (ta)))), b.3.bytes() + (b.4.bytes() + (b.5.bytes() + (b.6.bytes() + (tb)))));
+        D_::prefix_free(&a.3, &b.3, a.4.bytes() + (a.5.bytes() + (a.6.bytes() + (ta))), b.4.bytes() + (b.5.bytes() + (b.6.bytes() + (tb))));
+        E::prefix_free(&a.4, &b.4, a.5.bytes() + (a.6.bytes() + (ta)), b.5.bytes() + (b.6.bytes() + (tb)));
+        F::prefix_free(&a.5, &b.5, a.6.bytes() + (ta), b.6.bytes() + (tb));
+        G::prefix_free(&a.6, &b.6, ta, tb);
+    }
+//@ member decode
+//@ head
+        broadcast use lemma_cat_assoc;
+//@ end
+impl<T0: Wire, T1: Wire, T2: Wire, T3: Wire, T4: Wire, T5: Wire, T6: Wire, T7: Wire> Wire for (T0, T1, T2, T3, T4, T5, T6, T7, ) { open spec fn bytes(&self) -> Seq<u8> { self.0.bytes() + self.1.bytes() + self.2.bytes() + self.3.bytes() + self.4.bytes() + self.5.bytes() + self.6.bytes() + self.7.bytes() } }
+//@ macro crates/serialize/src/encode.rs :: impl_encode_tuple!(A, B, C, D, E_, F, G, H)
+//@ member encode
+//@ head
+        broadcast use lemma_cat_assoc;
+//@ end
+//@ macro crates/serialize/src/decode.rs :: impl_decode_tuple!(A, B, C, D_, E, F, G, H)
+//@ extra
+    proof fn prefix_free(a: &Self, b: &Self, ta: Seq<u8>, tb: Seq<u8>) {
+        broadcast use lemma_cat_assoc;
+        assert(a.bytes() + ta =~= a.0.bytes() + (a.1.bytes() + (a.2.bytes() + (a.3.bytes() + (a.4.bytes() + (a.5.bytes() + (a.6.bytes() + (a.7.bytes() + (ta)))))))));
+        assert(b.bytes() + tb =~= b.0.bytes() + (b.1.bytes() + (b.2.bytes() + (b.3.bytes() + (b.4.bytes() + (b.5.bytes() + (b.6.bytes() + (b.7.bytes() + (tb)))))))));
+        A::prefix_free(&a.0, &b.0, a.1.bytes() + (a.2.bytes() + (a.3.bytes() + (a.4.bytes() + (a.5.bytes() + (a.6.bytes() + (a.7.bytes() + (ta))))))), b.1.bytes() + (b.2.bytes() + (b.3.bytes() + (b.4.bytes() + (b.5.bytes() + (b.6.bytes() + (b.7.bytes() + (tb))))))));
+        B::prefix_free(&a.1, &b.1, a.2.bytes() + (a.3.bytes() + (a.4.bytes() + (a.5.bytes() + (a.6.bytes() + (a.7.bytes() + (ta)))))), b.2.bytes() + (b.3.bytes() + (b.4.bytes() + (b.5.bytes() + (b.6.bytes() + (b.7.bytes() + (tb)))))));
+        C::prefix_free(&a.2, &b.2, a.3.bytes() + (a.4.bytes() + (a.5.bytes() + (a.6.bytes() + (a.7.bytes() + (ta))))), b.3.bytes() + (b.4.bytes() + (b.5.bytes() + (b.6.bytes() + (b.7.bytes() + (tb))))));
+        D_::prefix_free(&a.3, &b.3, a.4.bytes() + (a.5.bytes() + (a.6.bytes() + (a.7.bytes() + (ta)))), b.4.bytes() + (b.5.bytes() + (b.6.bytes() + (b.7.bytes() + (tb)))));
+        E::prefix_free(&a.4, &b.4, a.5.bytes() + (a.6.bytes() + (a.7.bytes() + (ta))), b.5.bytes() + (b.6.bytes() + (b.7.bytes() + (tb))));
+        F::prefix_free(&a.5, &b.5, a.6.bytes() + (a.7.bytes() + (ta)), b.6.bytes() + (b.7.bytes() + (tb)));
+        G::prefix_free(&a.6, &b.6, a.7.bytes() + (ta), b.7.bytes() + (tb));
+        H::prefix_free(&a.7, &b.7, ta, tb);
+    }
+//@ member decode
+//@ head
+        broadcast use lemma_cat_assoc;
+//@ end
+impl<T0: Wire, T1: Wire, T2: Wire, T3: Wire, T4: Wire, T5: Wire, T6: Wire, T7: Wire, T8: Wire> Wire for (T0, T1, T2, T3, T4, T5, T6, T7, T8, ) { open spec fn bytes(&self) -> Seq<u8> { self.0.bytes() + self.1.bytes() + self.2.bytes() + self.3.bytes() + self.4.bytes() + self.5.bytes() + self.6.bytes() + self.7.bytes() + self.8.bytes() } }
+//@ macro crates/serialize/src/encode.rs :: impl_encode_tuple!(A, B, C, D, E_, F, G, H, I)
+//@ member encode
+//@ head
+        broadcast use lemma_cat_assoc;
+//@ end
+//@ macro crates/serialize/src/decode.rs :: impl_decode_tuple!(A, B, C, D_, E, F, G, H, I)
+//@ extra
+    proof fn prefix_free(a: &Self, b: &Self, ta: Seq<u8>, tb: Seq<u8>) {
+        broadcast use lemma_cat_assoc;
+        assert(a.bytes() + ta =~= a.0.bytes() + (a.1.bytes() + (a.2.bytes() + (a.3.bytes() + (a.4.bytes() + (a.5.bytes() + (a.6.bytes() + (a.7.bytes() + (a.8.bytes() + (ta))))))))));
+        assert(b.bytes() + tb =~= b.0.bytes() + (b.1.bytes() + (b.2.bytes() + (b.3.bytes() + (b.4.bytes() + (b.5.bytes() + (b.6.bytes() + (b.7.bytes() + (b.8.bytes() + (tb))))))))));
+        A::prefix_free(&a.0, &b.0, a.1.bytes() + (a.2.bytes() + (a.3.bytes() + (a.4.bytes() + (a.5.bytes() + (a.6.bytes() + (a.7.bytes() + (a.8.bytes() + (ta)))))))), b.1.bytes() + (b.2.bytes() + (b.3.bytes() + (b.4.bytes() + (b.5.bytes() + (b.6.bytes() + (b.7.bytes() + (b.8.bytes() + (tb)))))))));
+        B::prefix_free(&a.1, &b.1, a.2.bytes() + (a.3.bytes() + (a.4.bytes() + (a.5.bytes() + (a.6.bytes() + (a.7.bytes() + (a.8.bytes() + (ta))))))), b.2.bytes() + (b.3.bytes() + (b.4.bytes() + (b.5.bytes() + (b.6.bytes() + (b.7.bytes() + (b.8.bytes() + (tb))))))));
+        C::prefix_free(&a.2, &b.2, a.3.bytes() + (a.4.bytes() + (a.5.bytes() + (a.6.bytes() + (a.7.bytes() + (a.8.bytes() + (ta)))))), b.3.bytes() + (b.4.bytes() + (b.5.bytes() + (b.6.bytes() + (b.7.bytes() + (b.8.bytes() + (tb)))))));
+        D_::prefix_free(&a.3, &b.3, a.4.bytes() + (a.5.bytes() + (a.6.bytes() + (a.7.bytes() + (a.8.bytes() + (ta))))), b.4.bytes() + (b.5.bytes() + (b.6.bytes() + (b.7.bytes() + (b.8.bytes() + (tb))))));
+        E::prefix_free(&a.4, &b.4, a.5.bytes() + (a.6.bytes() + (a.7.bytes() + (a.8.bytes() + (ta)))), b.5.bytes() + (b.6.bytes() + (b.7.bytes() + (b.8.bytes() + (tb)))));
+        F::prefix_free(&a.5, &b.5, a.6.bytes() + (a.7.bytes() + (a.8.bytes() + (ta))), b.6.bytes() + (b.7.bytes() + (b.8.bytes() + (tb))));
+        G::prefix_free(&a.6, &b.6, a.7.bytes() + (a.8.bytes() + (ta)), b.7.bytes() + (b.8.bytes() + (tb)));
+        H::prefix_free(&a.7, &b.7, a.8.bytes() + (ta), b.8.bytes() + (tb));
+        I::prefix_free(&a.8, &b.8, ta, tb);
+    }
+//@ member decode
+//@ head
+        broadcast use lemma_cat_assoc;
+//@ end
+impl<T0: Wire, T1: Wire, T2: Wire, T3: Wire, T4: Wire, T5: Wire, T6: Wire, T7: Wire, T8: Wire, T9: Wire> Wire for (T0, T1, T2, T3, T4, T5, T6, T7, T8, T9, ) { open spec fn bytes(&self) -> Seq<u8> { self.0.bytes() + self.1.bytes() + self.2.bytes() + self.3.bytes() + self.4.bytes() + self.5.bytes() + self.6.bytes() + self.7.bytes() + self.8.bytes() + self.9.bytes() } }
+//@ macro crates/serialize/src/encode.rs :: impl_encode_tuple!(A, B, C, D, E_, F, G, H, I, J)
+//@ member encode
+//@ head
+        broadcast use lemma_cat_assoc;
+//@ end
+//@ macro crates/serialize/src/decode.rs :: impl_decode_tuple!(A, B, C, D_, E, F, G, H, I, J)
+//@ extra
+    proof fn prefix_free(a: &Self, b: &Self, ta: Seq<u8>, tb: Seq<u8>) {
+        broadcast use lemma_cat_assoc;
+        assert(a.bytes() + ta =~= a.0.bytes() + (a.1.bytes() + (a.2.bytes() + (a.3.bytes() + (a.4.bytes() + (a.5.bytes() + (a.6.bytes() + (a.7.bytes() + (a.8.bytes() + (a.9.bytes() + (ta)))))))))));
+        assert(b.bytes() + tb =~= b.0.bytes() + (b.1.bytes() + (b.2.bytes() + (b.3.bytes() + (b.4.bytes() + (b.5.bytes() + (b.6.bytes() + (b.7.bytes() + (b.8.bytes() + (b.9.bytes() + (tb)))))))))));
+        A::prefix_free(&a.0, &b.0, a.1.bytes() + (a.2.bytes() + (a.3.bytes() + (a.4.bytes() + (a.5.bytes() + (a.6.bytes() + (a.7.bytes() + (a.8.bytes() + (a.9.bytes() + (ta))))))))), b.1.bytes() + (b.2.bytes() + (b.3.bytes() + (b.4.bytes() + (b.5.bytes() + (b.6.bytes() + (b.7.bytes() + (b.8.bytes() + (b.9.bytes() + (tb))))))))));
+        B::prefix_free(&a.1, &b.1, a.2.bytes() + (a.3.bytes() + (a.4.bytes() + (a.5.bytes() + (a.6.bytes() + (a.7.bytes() + (a.8.bytes() + (a.9.bytes() + (ta)))))))), b.2.bytes() + (b.3.bytes() + (b.4.bytes() + (b.5.bytes() + (b.6.bytes() + (b.7.bytes() + (b.8.bytes() + (b.9.bytes() + (tb)))))))));
+        C::prefix_free(&a.2, &b.2, a.3.bytes() + (a.4.bytes() + (a.5.bytes() + (a.6.bytes() + (a.7.bytes() + (a.8.bytes() + (a.9.bytes() + (ta))))))), b.3.bytes() + (b.4.bytes() + (b.5.bytes() + (b.6.bytes() + (b.7.bytes() + (b.8.bytes() + (b.9.bytes() + (tb))))))));
+        D_::prefix_free(&a.3, &b.3, a.4.bytes() + (a.5.bytes() + (a.6.bytes() + (a.7.bytes() + (a.8.bytes() + (a.9.bytes() + (ta)))))), b.4.bytes() + (b.5.bytes() + (b.6.bytes() + (b.7.bytes() + (b.8.bytes() + (b.9.bytes() + (tb)))))));
+        E::prefix_free(&a.4, &b.4, a.5.bytes() + (a.6.bytes() + (a.7.bytes() + (a.8.bytes() + (a.9.bytes() + (ta))))), b.5.bytes() + (b.6.bytes() + (b.7.bytes() + (b.8.bytes() + (b.9.bytes() + (tb))))));
+        F::prefix_free(&a.5, &b.5, a.6.bytes() + (a.7.bytes() + (a.8.bytes() + (a.9.bytes() + (ta)))), b.6.bytes() + (b.7.bytes() + (b.8.bytes() + (b.9.bytes() + (tb)))));
+        G::prefix_free(&a.6, &b.6, a.7.bytes() + (a.8.bytes() + (a.9.bytes() + (ta))), b.7.bytes() + (b.8.bytes() + (b.9.bytes() + (tb))));
+        H::prefix_free(&a.7, &b.7, a.8.bytes() + (a.9.bytes() + (ta)), b.8.bytes() + (b.9.bytes() + (tb)));
+        I::prefix_free(&a.8, &b.8, a.9.bytes() + (ta), b.9.bytes() + (tb));
+        J::prefix_free(&a.9, &b.9, ta, tb);
+    }
+//@ member decode
+//@ head
+        broadcast use lemma_cat_assoc;
+//@ end
+impl<T0: Wire, T1: Wire, T2: Wire, T3: Wire, T4: Wire, T5: Wire, T6: Wire, T7: Wire, T8: Wire, T9: Wire, T10: Wire> Wire for (T0, T1, T2, T3, T4, T5, T6, T7, T8, T9, T10, ) { open spec fn bytes(&self) -> Seq<u8> { self.0.bytes() + self.1.bytes() + self.2.bytes() + self.3.bytes() + self.4.bytes() + self.5.bytes() + self.6.bytes() + self.7.bytes() + self.8.bytes() + self.9.bytes() + self.10.bytes() } }
+//@ macro crates/serialize/src/encode.rs :: impl_encode_tuple!(A, B, C, D, E_, F, G, H, I, J, K)
+//@ member encode
+//@ head
+        broadcast use lemma_cat_assoc;
+//@ end
+//@ macro crates/serialize/src/decode.rs :: impl_decode_tuple!(A, B, C, D_, E, F, G, H, I, J, K)
+//@ extra
+    proof fn prefix_free(a: &Self, b: &Self, ta: Seq<u8>, tb: Seq<u8>) {
+        broadcast use lemma_cat_assoc;
+        assert(a.bytes() + ta =~= a.0.bytes() + (a.1.bytes() + (a.2.bytes() + (a.3.bytes() + (a.4.bytes() + (a.5.bytes() + (a.6.bytes() + (a.7.bytes() + (a.8.bytes() + (a.9.bytes() + (a.10.bytes() + (ta))))))))))));
+        assert(b.bytes() + tb =~= b.0.bytes() + (b.1.bytes() + (b.2.bytes() + (b.3.bytes() + (b.4.bytes() + (b.5.bytes() + (b.6.bytes() + (b.7.bytes() + (b.8.bytes() + (b.9.bytes() + (b.10.bytes() + (tb))))))))))));
+        A::prefix_free(&a.0, &b.0, a.1.bytes() + (a.2.bytes() + (a.3.bytes() + (a.4.bytes() + (a.5.bytes() + (a.6.bytes() + (a.7.bytes() + (a.8.bytes() + (a.9.bytes() + (a.10.bytes() + (ta)))))))))), b.1.bytes() + (b.2.bytes() + (b.3.bytes() + (b.4.bytes() + (b.5.bytes() + (b.6.bytes() + (b.7.bytes() + (b.8.bytes() + (b.9.bytes() + (b.10.bytes() + (tb)))))))))));
+        B::prefix_free(&a.1, &b.1, a.2.bytes() + (a.3.bytes() + (a.4.bytes() + (a.5.bytes() + (a.6.bytes() + (a.7.bytes() + (a.8.bytes() + (a.9.bytes() + (a.10.bytes() + (ta))))))))), b.2.bytes() + (b.3.bytes() + (b.4.bytes() + (b.5.bytes() + (b.6.bytes() + (b.7.bytes() + (b.8.bytes() + (b.9.bytes() + (b.10.bytes() + (tb))))))))));
+        C::prefix_free(&a.2, &b.2, a.3.bytes() + (a.4.bytes() + (a.5.bytes() + (a.6.bytes() + (a.7.bytes() + (a.8.bytes() + (a.9.bytes() + (a.10.bytes() + (ta)))))))), b.3.bytes() + (b.4.bytes() + (b.5.bytes() + (b.6.bytes() + (b.7.bytes() + (b.8.bytes() + (b.9.bytes() + (b.10.bytes() + (tb)))))))));
+        D_::prefix_free(&a.3, &b.3, a.4.bytes() + (a.5.bytes() + (a.6.bytes() + (a.7.bytes() + (a.8.bytes() + (a.9.bytes() + (a.10.bytes() + (ta))))))), b.4.bytes() + (b.5.bytes() + (b.6.bytes() + (b.7.bytes() + (b.8.bytes() + (b.9.bytes() + (b.10.bytes() + (tb))))))));
+        E::prefix_free(&a.4, &b.4, a.5.bytes() + (a.6.bytes() + (a.7.bytes() + (a.8.bytes() + (a.9.bytes() + (a.10.bytes() + (ta)))))), b.5.bytes() + (b.6.bytes() + (b.7.bytes() + (b.8.bytes() + (b.9.bytes() + (b.10.bytes() + (tb)))))));
+        F::prefix_free(&a.5, &b.5, a.6.bytes() + (a.7.bytes() + (a.8.bytes() + (a.9.bytes() + (a.10.bytes() + (ta))))), b.6.bytes() + (b.7.bytes() + (b.8.bytes() + (b.9.bytes() + (b.10.bytes() + (tb))))));
+        G::prefix_free(&a.6, &b.6, a.7.bytes() + (a.8.bytes() + (a.9.bytes() + (a.10.bytes() + (ta)))), b.7.bytes() + (b.8.bytes() + (b.9.bytes() + (b.10.bytes() + (tb)))));
+        H::prefix_free(&a.7, &b.7, a.8.bytes() + (a.9.bytes() + (a.10.bytes() + (ta))), b.8.bytes() + (b.9.bytes() + (b.10.bytes() + (tb))));
+        I::prefix_free(&a.8, &b.8, a.9.bytes() + (a.10.bytes() + (ta)), b.9.bytes() + (b.10.bytes() + (tb)));
+        J::prefix_free(&a.9, &b.9, a.10.bytes() + (ta), b.10.bytes() + (tb));
+        K::prefix_free(&a.10, &b.10, ta, tb);
+    }
+//@ member decode
+//@ head
+        broadcast use lemma_cat_assoc;
+//@ end
+impl<T0: Wire, T1: Wire, T2: Wire, T3: Wire, T4: Wire, T5: Wire, T6: Wire, T7: Wire, T8: Wire, T9: Wire, T10: Wire, T11: Wire> Wire for (T0, T1, T2, T3, T4, T5, T6, T7, T8, T9, T10, T11, ) { open spec fn bytes(&self) -> Seq<u8> { self.0.bytes() + self.1.bytes() + self.2.bytes() + self.3.bytes() + self.4.bytes() + self.5.bytes() + self.6.bytes() + self.7.bytes() + self.8.bytes() + self.9.bytes() + self.10.bytes() + self.11.bytes() } }
+//@ macro crates/serialize/src/encode.rs :: impl_encode_tuple!(A, B, C, D, E_, F, G, H, I, J, K, L)
+//@ member encode
+//@ head
+        broadcast use lemma_cat_assoc;
+//@ end
+//@ macro crates/serialize/src/decode.rs :: impl_decode_tuple!(A, B, C, D_, E, F, G, H, I, J, K, L)
+//@ extra
+    proof fn prefix_free(a: &Self, b: &Self, ta: Seq<u8>, tb: Seq<u8>) {
+        broadcast use lemma_cat_assoc;
+        assert(a.bytes() + ta =~= a.0.bytes() + (a.1.bytes() + (a.2.bytes() + (a.3.bytes() + (a.4.bytes() + (a.5.bytes() + (a.6.bytes() + (a.7.bytes() + (a.8.bytes() + (a.9.bytes() + (a.10.bytes() + (a.11.bytes() + (ta)))))))))))));
+        assert(b.bytes() + tb =~= b.0.bytes() + (b.1.bytes() + (b.2.bytes() + (b.3.bytes() + (b.4.bytes() + (b.5.bytes() + (b.6.bytes() + (b.7.bytes() + (b.8.bytes() + (b.9.bytes() + (b.10.bytes() + (b.11.bytes() + (tb)))))))))))));
+        A::prefix_free(&a.0, &b.0, a.1.bytes() + (a.2.bytes() + (a.3.bytes() + (a.4.bytes() + (a.5.bytes() + (a.6.bytes() + (a.7.bytes() + (a.8.bytes() + (a.9.bytes() + (a.10.bytes() + (a.11.bytes() + (ta))))))))))), b.1.bytes() + (b.2.bytes() + (b.3.bytes() + (b.4.bytes() + (b.5.bytes() + (b.6.bytes() + (b.7.bytes() + (b.8.bytes() + (b.9.bytes() + (b.10.bytes() + (b.11.bytes() + (tb))))))))))));
+        B::prefix_free(&a.1, &b.1, a.2.bytes() + (a.3.bytes() + (a.4.bytes() + (a.5.bytes() + (a.6.bytes() + (a.7.bytes() + (a.8.bytes() + (a.9.bytes() + (a.10.bytes() + (a.11.bytes() + (ta)))))))))), b.2.bytes() + (b.3.bytes() + (b.4.bytes() + (b.5.bytes() + (b.6.bytes() + (b.7.bytes() + (b.8.bytes() + (b.9.bytes() + (b.10.bytes() + (b.11.bytes() + (tb)))))))))));
+        C::prefix_free(&a.2, &b.2, a.3.bytes() + (a.4.bytes() + (a.5.bytes() + (a.6.bytes() + (a.7.bytes() + (a.8.bytes() + (a.9.bytes() + (a.10.bytes() + (a.11.bytes() + (ta))))))))), b.3.bytes() + (b.4.bytes() + (b.5.bytes() + (b.6.bytes() + (b.7.bytes() + (b.8.bytes() + (b.9.bytes() + (b.10.bytes() + (b.11.bytes() + (tb))))))))));
+        D_::prefix_free(&a.3, &b.3, a.4.bytes() + (a.5.bytes() + (a.6.bytes() + (a.7.bytes() + (a.8.bytes() + (a.9.bytes() + (a.10.bytes() + (a.11.bytes() + (ta)))))))), b.4.bytes() + (b.5.bytes() + (b.6.bytes() + (b.7.bytes() + (b.8.bytes() + (b.9.bytes() + (b.10.bytes() + (b.11.bytes() + (tb)))))))));
+        E::prefix_free(&a.4, &b.4, a.5.bytes() + (a.6.bytes() + (a.7.bytes() + (a.8.bytes() + (a.9.bytes() + (a.10.bytes() + (a.11.bytes() + (ta))))))), b.5.bytes() + (b.6.bytes() + (b.7.bytes() + (b.8.bytes() + (b.9.bytes() + (b.10.bytes() + (b.11.bytes() + (tb))))))));
+        F::prefix_free(&a.5, &b.5, a.6.bytes() + (a.7.bytes() + (a.8.bytes() + (a.9.bytes() + (a.10.bytes() + (a.11.bytes() + (ta)))))), b.6.bytes() + (b.7.bytes() + (b.8.bytes() + (b.9.bytes() + (b.10.bytes() + (b.11.bytes() + (tb)))))));
+        G::prefix_free(&a.6, &b.6, a.7.bytes() + (a.8.bytes() + (a.9.bytes() + (a.10.bytes() + (a.11.bytes() + (ta))))), b.7.bytes() + (b.8.bytes() + (b.9.bytes() + (b.10.bytes() + (b.11.bytes() + (tb))))));
+        H::prefix_free(&a.7, &b.7, a.8.bytes() + (a.9.bytes() + (a.10.bytes() + (a.11.bytes() + (ta)))), b.8.bytes() + (b.9.bytes() + (b.10.bytes() + (b.11.bytes() + (tb)))));
+        I::prefix_free(&a.8, &b.8, a.9.bytes() + (a.10.bytes() + (a.11.bytes() + (ta))), b.9.bytes() + (b.10.bytes() + (b.11.bytes() + (tb))));
+        J::prefix_free(&a.9, &b.9, a.10.bytes() + (a.11.bytes() + (ta)), b.10.bytes() + (b.11.bytes() + (tb)));
+        K::prefix_free(&a.10, &b.10, a.11.bytes() + (ta), b.11.bytes() + (tb));
+        L::prefix_free(&a.11, &b.11, ta, tb);
+    }
+//@ member decode
+//@ head
+        broadcast use lemma_cat_assoc;
+//@ end
+
+
+// ---------------------------------------------------------------- sequences: length prefix + elements in order
+/// concatenated images of a sequence of values
+pub open spec fn concat<T: Wire>(s: Seq<T>) -> Seq<u8>
+    decreases s.len()
+{
+    if s.len() == 0 { Seq::<u8>::empty() } else { s[0].bytes() + concat(s.skip(1)) }
+}
+
+pub proof fn lemma_concat_push<T: Wire>(s: Seq<T>, x: T)
+    ensures concat(s.push(x)) == concat(s) + x.bytes()
+    decreases s.len()
+{
+    if s.len() == 0 {
+        assert(s.push(x).skip(1) =~= Seq::<T>::empty());
+        assert(concat(s.push(x)) =~= x.bytes() + concat(Seq::<T>::empty()));
+        assert(concat(s.push(x)) =~= concat(s) + x.bytes());
+    } else {
+        assert(s.push(x).skip(1) =~= s.skip(1).push(x));
+        lemma_concat_push(s.skip(1), x);
+        assert(concat(s.push(x)) =~= s[0].bytes() + (concat(s.skip(1)) + x.bytes()));
+        assert(concat(s.push(x)) =~= concat(s) + x.bytes());
+    }
+}
+
+/// concat(s.take(i+1)) == concat(s.take(i)) + s[i].bytes()
+pub broadcast proof fn lemma_concat_take_step<T: Wire>(s: Seq<T>, i: int)
+    requires 0 <= i < s.len()
+    ensures #[trigger] concat(s.take(i + 1)) == concat(s.take(i)) + s[i].bytes()
+{
+    assert(s.take(i + 1) =~= s.take(i).push(s[i]));
+    lemma_concat_push(s.take(i), s[i]);
+}
+
+/// concat(s.skip(i)) == s[i].bytes() + concat(s.skip(i+1))
+pub proof fn lemma_concat_skip_step<T: Wire>(s: Seq<T>, i: int)
+    requires 0 <= i < s.len()
+    ensures concat(s.skip(i)) == s[i].bytes() + concat(s.skip(i + 1))
+{
+    assert(s.skip(i).skip(1) =~= s.skip(i + 1));
+}
+
+pub broadcast proof fn lemma_take_all<T>(s: Seq<T>)
+    ensures #[trigger] s.take(s.len() as int) == s
+{
+    assert(s.take(s.len() as int) =~= s);
+}
+
+/// image of a length-prefixed sequence
+pub open spec fn seq_bytes<T: Wire>(s: Seq<T>) -> Seq<u8> { leb(s.len()) + concat(s) }
+
+/// prefix-freeness of element sequences of equal length
+pub proof fn lemma_concat_prefix_free<T: Decode>(a: Seq<T>, b: Seq<T>, ta: Seq<u8>, tb: Seq<u8>)
+    requires a.len() == b.len(), concat(a) + ta == concat(b) + tb
+    ensures concat(a) == concat(b), ta == tb
+    decreases a.len()
+{
+    broadcast use lemma_cat_assoc, lemma_cat_empty;
+    if a.len() > 0 {
+        assert(concat(a) + ta =~= a[0].bytes() + (concat(a.skip(1)) + ta));
+        assert(concat(b) + tb =~= b[0].bytes() + (concat(b.skip(1)) + tb));
+        T::prefix_free(&a[0], &b[0], concat(a.skip(1)) + ta, concat(b.skip(1)) + tb);
+        lemma_concat_prefix_free(a.skip(1), b.skip(1), ta, tb);
+    }
+}
+
+pub proof fn lemma_seq_bytes_prefix_free<T: Decode>(a: Seq<T>, b: Seq<T>, ta: Seq<u8>, tb: Seq<u8>)
+    requires seq_bytes(a) + ta == seq_bytes(b) + tb
+    ensures seq_bytes(a) == seq_bytes(b), ta == tb
+{
+    broadcast use lemma_cat_assoc;
+    assert(seq_bytes(a) + ta =~= leb(a.len()) + (concat(a) + ta));
+    assert(seq_bytes(b) + tb =~= leb(b.len()) + (concat(b) + tb));
+    lemma_leb_prefix_free(a.len(), b.len(), concat(a) + ta, concat(b) + tb);
+    lemma_concat_prefix_free(a, b, ta, tb);
+}
+
+/// decode-loop invariant shared by all length-prefixed sequence decoders:
+/// whatever sequence `s` the input started with the image of, after |got| elements the decoder has
+/// produced elements whose images agree with s[0..|got|] and stands at the image of s[|got|..].
+pub open spec fn seq_dec_inv<T: Wire>(before: Seq<u8>, len: usize, got: Seq<T>, rest: Seq<u8>) -> bool {
+    forall|s: Seq<T>, tail: Seq<u8>| #![trigger seq_bytes(s) + tail] (before == seq_bytes(s) + tail && s.len() <= usize::MAX) ==> (
+        s.len() == len && got.len() <= len && concat(got) == concat(s.take(got.len() as int))
+        && rest == concat(s.skip(got.len() as int)) + tail)
+}
+
+pub broadcast proof fn lemma_seq_bytes_as_usize<T: Wire>(s: Seq<T>, tail: Seq<u8>)
+    requires s.len() <= usize::MAX
+    ensures #[trigger] (seq_bytes(s) + tail) == (s.len() as usize).bytes() + (concat(s) + tail)
+{
+    assert(seq_bytes(s) + tail =~= (s.len() as usize).bytes() + (concat(s) + tail));
+}
+
+pub broadcast proof fn lemma_take0<T>(s: Seq<T>)
+    ensures #[trigger] s.take(0) == Seq::<T>::empty()
+{
+    assert(s.take(0) =~= Seq::<T>::empty());
+}
+
+pub broadcast proof fn lemma_skip0<T>(s: Seq<T>)
+    ensures #[trigger] s.skip(0) == s
+{
+    assert(s.skip(0) =~= s);
+}
+
+/// established by read_usize
+pub proof fn lemma_seq_dec_start<T: Wire>(before: Seq<u8>, r: io::Result<usize>, rest: Seq<u8>)
+    requires reads_exact::<usize>(before, r, rest)
+    ensures
+        r matches Ok(len) ==> seq_dec_inv::<T>(before, len, Seq::<T>::empty(), rest),
+        r is Err ==> forall|s: Seq<T>, tail: Seq<u8>| #![trigger seq_bytes(s) + tail] !(before == seq_bytes(s) + tail && s.len() <= usize::MAX),
+{
+    broadcast use lemma_cat_assoc, lemma_cat_empty;
+    assert forall|s: Seq<T>, tail: Seq<u8>| #![trigger seq_bytes(s) + tail] (before == seq_bytes(s) + tail && s.len() <= usize::MAX) implies (
+        r matches Ok(len) && s.len() == len && concat(Seq::<T>::empty()) == concat(s.take(0)) && rest == concat(s.skip(0)) + tail) by {
+        let n = s.len() as usize;
+        assert(seq_bytes(s) + tail =~= n.bytes() + (concat(s) + tail));
+        assert(s.skip(0) =~= s);
+        assert(s.take(0) =~= Seq::<T>::empty());
+    }
+}
+
+/// what one element decode needs to see at the head of an iteration
+pub proof fn lemma_seq_dec_peek<T: Wire>(before: Seq<u8>, len: usize, got: Seq<T>, rest: Seq<u8>)
+    requires seq_dec_inv::<T>(before, len, got, rest), got.len() < len
+    ensures forall|s: Seq<T>, tail: Seq<u8>| #![trigger seq_bytes(s) + tail] (before == seq_bytes(s) + tail && s.len() <= usize::MAX) ==>
+        rest == s[got.len() as int].bytes() + (concat(s.skip(got.len() as int + 1)) + tail)
+{
+    broadcast use lemma_cat_assoc;
+    assert forall|s: Seq<T>, tail: Seq<u8>| #![trigger seq_bytes(s) + tail] (before == seq_bytes(s) + tail && s.len() <= usize::MAX) implies
+        rest == s[got.len() as int].bytes() + (concat(s.skip(got.len() as int + 1)) + tail) by {
+        lemma_concat_skip_step(s, got.len() as int);
+    }
+}
+
+/// one successful element decode re-establishes the invariant
+pub proof fn lemma_seq_dec_step<T: Wire>(before: Seq<u8>, len: usize, got: Seq<T>, rest: Seq<u8>, r: io::Result<T>, rest2: Seq<u8>)
+    requires seq_dec_inv::<T>(before, len, got, rest), got.len() < len, decodes_to::<T>(rest, r, rest2)
+    ensures
+        r matches Ok(w) ==> seq_dec_inv::<T>(before, len, got.push(w), rest2),
+        r is Err ==> forall|s: Seq<T>, tail: Seq<u8>| #![trigger seq_bytes(s) + tail] !(before == seq_bytes(s) + tail && s.len() <= usize::MAX),
+{
+    lemma_seq_dec_peek(before, len, got, rest);
+    assert forall|s: Seq<T>, tail: Seq<u8>| #![trigger seq_bytes(s) + tail] (before == seq_bytes(s) + tail && s.len() <= usize::MAX) implies
+        (r matches Ok(w) && seq_one(before, len, got.push(w), rest2, s, tail)) by {
+        let i = got.len() as int;
+        let x = s[i];
+        let tl = concat(s.skip(i + 1)) + tail;
+        assert(rest == x.bytes() + tl);
+        let w = r->Ok_0;
+        assert(r is Ok && w.bytes() == x.bytes() && rest2 == tl);
+        lemma_concat_push(got, w);
+        lemma_concat_take_step(s, i);
+    }
+}
+
+pub open spec fn seq_one<T: Wire>(before: Seq<u8>, len: usize, got: Seq<T>, rest: Seq<u8>, s: Seq<T>, tail: Seq<u8>) -> bool {
+    s.len() == len && got.len() <= len && concat(got) == concat(s.take(got.len() as int))
+        && rest == concat(s.skip(got.len() as int)) + tail
+}
+
+/// at the end: the produced sequence has the image the input started with
+pub proof fn lemma_seq_dec_done<T: Wire>(before: Seq<u8>, len: usize, got: Seq<T>, rest: Seq<u8>)
+    requires seq_dec_inv::<T>(before, len, got, rest), got.len() == len
+    ensures forall|s: Seq<T>, tail: Seq<u8>| #![trigger seq_bytes(s) + tail] (before == seq_bytes(s) + tail && s.len() <= usize::MAX) ==>
+        (seq_bytes(got) == seq_bytes(s) && rest == tail)
+{
+    broadcast use lemma_cat_empty;
+    assert forall|s: Seq<T>, tail: Seq<u8>| #![trigger seq_bytes(s) + tail] (before == seq_bytes(s) + tail && s.len() <= usize::MAX) implies
+        (seq_bytes(got) == seq_bytes(s) && rest == tail) by {
+        assert(s.take(s.len() as int) =~= s);
+        assert(s.skip(s.len() as int) =~= Seq::<T>::empty());
+    }
+}
+
+impl<T: Wire> Wire for Vec<T> { open spec fn bytes(&self) -> Seq<u8> { seq_bytes(self@) } }
+
+pub broadcast proof fn lemma_vec_len_fits<T: Wire>(v: Vec<T>)
+    ensures #[trigger] v.bytes() == seq_bytes(v@), v@.len() <= usize::MAX
+{
+    let n = v.len();
+    assert(n == v@.len());
+}
+
+//@ impl crates/serialize/src/encode.rs :: impl<T: Encode> Encode for Vec<T>
+//@ member encode
+//@ head
+        broadcast use lemma_concat_take_step, lemma_take_all, lemma_cat_empty;
+//@ loop 0 iter __it
+//@ loop 0 inv
+            invariant encoder.out() =~= old(encoder).out() + leb(self@.len()) + concat(self@.take(__it.index@ as int)),
+//@ loop 0 head
+            proof { lemma_concat_take_step(self@, __it.index@ as int); }
+//@ end
+
+//@ impl crates/serialize/src/decode.rs :: impl<T: Decode> Decode for Vec<T>
+//@ extra
+    proof fn prefix_free(a: &Self, b: &Self, ta: Seq<u8>, tb: Seq<u8>) {
+        lemma_seq_bytes_prefix_free(a@, b@, ta, tb);
+    }
+//@ member decode
+//@ head
+        broadcast use lemma_seq_bytes_as_usize, lemma_vec_len_fits, lemma_take0, lemma_skip0, lemma_cat_empty;
+        let ghost before = decoder.rest();
+//@ loop 0 iter __it
+//@ loop 0 inv
+            invariant
+                before == old(decoder).rest(),
+                seq_dec_inv::<T>(before, len, vec@, decoder.rest()),
+                vec@.len() == __it.index@,
+//@ loop 0 head
+            broadcast use lemma_seq_bytes_as_usize, lemma_vec_len_fits;
+            let ghost rest0 = decoder.rest();
+            let ghost got0 = vec@;
+            proof { lemma_seq_dec_peek(before, len, got0, rest0); }
+//@ loop 0 tail
+            proof {
+                lemma_seq_dec_step::<T>(before, len, got0, rest0, Ok(vec@.last()), decoder.rest());
+                assert(got0.push(vec@.last()) =~= vec@);
+            }
 //@ end
 
 } // verus!
